@@ -345,7 +345,7 @@ int FSolver::StaticAxisymmetric(CBigLinProb &L)
                 be[j]+=K;
 
                 // record avg current density in the block for use in incremental solutions
-                if (bIncremental==0) El->Jprev+=(blockproplist[El->blk].J.re+t)/3.;
+                if ((bIncremental==0) && (Iter==0)) El->Jprev+=(blockproplist[El->blk].J.re+t)/3.;
 
             }
 
